@@ -131,13 +131,13 @@ type cursorScenario struct {
 	cancelled  bool
 	closeEarly atomic.Bool // a Close call returned before the workers were done
 	finished   bool
-	nextObs   []nextObs         // consumer's observations in order
-	perWorker map[int][][]int64 // worker index -> batches in issue order
-	stats     []bs.BlockStats   // in call order
-	errIDs    []int64
-	errObs    map[int]terr // log position (index of last event) -> Err() seen
-	serial    int
-	plan      []string
+	nextObs    []nextObs         // consumer's observations in order
+	perWorker  map[int][][]int64 // worker index -> batches in issue order
+	stats      []bs.BlockStats   // in call order
+	errIDs     []int64
+	errObs     map[int]terr // log position (index of last event) -> Err() seen
+	serial     int
+	plan       []string
 }
 
 const settleShort = 400 * time.Microsecond
@@ -156,7 +156,7 @@ func runCursorScenario(c *Ctx, fixed bool, script string) (term string, desc map
 	pz := installPauser()
 	defer removeLog()
 	// the caller's context: a stdlib one, or one whose cancellation reaches the cursor's derived context late
-	ctxKind := []string{"std", "std", "watch", "gated", "gated"}[c.intn(5)]
+	ctxKind := []string{"std", "cause", "watch", "gated", "gated"}[c.intn(5)]
 	if script == "late" {
 		ctxKind = "gated"
 	}
